@@ -208,15 +208,6 @@ pub fn check_classification(p: &Program, tree: &sv::SyntaxTree, text: &str) -> R
     Ok((checked_expects, leaf_tokens))
 }
 
-/// Is the rejection of `text` explained by listed finding K3 (memo key omits the recursion flags)?
-pub fn rejected_only_by_k3(text: &str) -> bool {
-    let (plain, _) = sv::raw_parse(Grammar::Sv, text, sv::hooks::DEFAULT_CAPACITY, false);
-    if plain.is_some() {
-        return false;
-    }
-    let (aware, _) = sv::raw_parse(Grammar::Sv, text, None, true);
-    aware.is_some()
-}
 
 pub fn run_program(ctx: &Ctx, p: &Program, text: &str, st: &mut Stats) -> Result<bool, Fail> {
     let detail = |extra: serde_json::Value| json!({"source": text, "plain": p.render_plain(), "info": extra});
@@ -230,9 +221,19 @@ pub fn run_program(ctx: &Ctx, p: &Program, text: &str, st: &mut Stats) -> Result
     let tree = match sv::parse_pp(Grammar::Sv, ppt, defs, false) {
         Ok((t, _)) => t,
         Err(e) => {
-            if ctx.findings.is_known("C02", "K3") && rejected_only_by_k3(&pptext) {
-                st.known("K3");
-                return Ok(false);
+            if ctx.findings.is_known("C02", "K3") {
+                match sv::k3_explains_rejection(Grammar::Sv, &pptext) {
+                    sv::K3Verdict::Explained => {
+                        st.known("K3");
+                        st.class("rejected at the production memo capacity only (listed finding K3)");
+                        return Ok(false);
+                    }
+                    sv::K3Verdict::Inconclusive => {
+                        st.skip("rejection could not be attributed within the work budget");
+                        return Ok(false);
+                    }
+                    sv::K3Verdict::NotExplained => {}
+                }
             }
             return Err(Fail::new(
                 format!("Annex A sentence rejected in strict mode: {}", sv::err_kind(&e)),
@@ -298,6 +299,20 @@ impl Prop for C02 {
         };
         run_program(ctx, &p, &text, st)?;
         Ok(())
+    }
+    fn witness(&self, _ctx: &Ctx, f: &crate::findings::Finding) -> Result<bool, Fail> {
+        // witness {"kind":"k3_reject","source":…}: still fails iff the production parser rejects it in the way the signature describes
+        if f.witness["kind"].as_str() != Some("k3_reject") {
+            return Ok(false);
+        }
+        let src = f.witness["source"].as_str().unwrap_or("");
+        if sv::parse_text(Grammar::Sv, src, false).is_ok() {
+            return Ok(false);
+        }
+        match sv::k3_explains_rejection(Grammar::Sv, src) {
+            sv::K3Verdict::Explained => Ok(true),
+            _ => Err(Fail::new(format!("witness of {} is rejected but not in the listed way", f.id), json!({"source": src}))),
+        }
     }
     fn health(&self, _ctx: &Ctx, st: &Stats) -> Result<(), String> {
         // every production family of DESIGN.md 3.1 must occur in at least 1 % of the programs
